@@ -187,7 +187,13 @@ impl Command {
                 where_clause: None,
                 limit: None,
                 offset: None,
-                order_by: None,
+                // A replay is read back in the order the events were appended: event ids grow in
+                // append order within a shard and a context lives on one shard. Without an order the
+                // in-memory and on-disk streams are delivered in whatever order they arrive.
+                order_by: Some(OrderSpec {
+                    field: "event_id".to_string(),
+                    desc: false,
+                }),
                 picked_zones: None,
                 return_fields: return_fields.clone(),
                 link_field: None,
